@@ -123,6 +123,9 @@ func ciscoPlan(kind, prop string) RunFunc {
 				if kind == "IOS" && hasRemarks(cs) {
 					k += "|acl-with-remarks"
 				}
+				if kind == "ASA" && hasDupRemarks(cs) {
+					k += "|identical-remark-lines"
+				}
 				return fail(k, "after executing the script: "+o.StateDiff)
 			}
 			if rejected != "" {
@@ -452,6 +455,24 @@ func nestedByGroupObject(c *cisco.Conf, name string) bool {
 		for _, s := range o.Subs {
 			if s == "group-object "+name {
 				return true
+			}
+		}
+	}
+	return false
+}
+
+// hasDupRemarks: some ACL of device or target holds the same remark text twice.
+func hasDupRemarks(cs *CiscoCase) bool {
+	for _, c := range []*cisco.Conf{cs.A, cs.B} {
+		for _, a := range c.ACLs {
+			seen := map[string]bool{}
+			for _, e := range a.Entries {
+				if strings.HasPrefix(e.Text, "remark ") {
+					if seen[e.Text] {
+						return true
+					}
+					seen[e.Text] = true
+				}
 			}
 		}
 	}
